@@ -7,14 +7,14 @@ from vlib.util import exc_key, exc_msg
 
 PROPERTY = "C20"
 LEVEL = "exploration"
-RULE = ("A catalogue of size-parameterised families (38 load families: long plain/single-/double-quoted/literal/folded scalars on one "
+RULE = ("A catalogue of size-parameterised families (47 load families, a few through compose / serialize / full_load where safe_load cannot take the shape: long plain/single-/double-quoted/literal/folded scalars on one "
         "and on many lines, escapes, many block and flow entries, single-line flow collections, nested flow in block, many "
         "documents, many anchors and aliases, many aliases to one large node, doubling alias chains, long and many comments, "
         "blank runs, space runs, long explicit keys, simple keys up to the 1024 limit, tags, merges, ints/floats/timestamps, "
-        "binary, empty values, deep-ish nesting at fixed depth; 18 dump families: lists, dicts, sets, long strings per style, "
+        "binary, empty values, deep-ish nesting at fixed depth; 23 dump families: lists, dicts, sets, long strings per style, "
         "multi-line strings, shared sub-objects, unicode, binary, control characters, quotes, floats) each instantiated with "
         "template parameters drawn by Hypothesis (filler word, line break, indent, key length, dump options) at sizes n, 2n, "
-        "4n. Oracle: calls(x) = number of Python-level function calls (sys.monitoring PY_START) during safe_load / "
+        "4n. Oracle: calls(x) = number of Python-level frame entries (sys.monitoring PY_START and PY_RESUME, i.e. what sys.setprofile reports as 'call') during safe_load / "
         "safe_dump - deterministic, no clock; linear-growth predicate calls(2n)/calls(n) <= 2.15, calls(4n)/calls(2n) <= 2.15 and "
         "(c(4n)-c(2n))/(c(2n)-c(n)) <= 2.3. Every (family, parameters) triple is non-trivial; distinct = hash of it.")
 ASSUMPTIONS = [
@@ -27,7 +27,7 @@ LIMIT_SECOND = 2.3
 
 
 def calls_of(fn):
-    with CallBudget(None) as b:
+    with CallBudget(None, count_resume=True) as b:
         fn()
     return b.calls
 
@@ -78,6 +78,15 @@ LOAD = [
                                                           for i in range(n))),
     ("binary", 2000, lambda n, p: "b: !!binary |" + p["nl"] + ("  " + "QUJD" * 16 + p["nl"]) * (n // 16 + 1)),
     ("empty-values", 1000, lambda n, p: "".join("k%d:%s" % (i, p["nl"]) for i in range(n))),
+    ("long-flow-collection-as-key", 1500, lambda n, p: "? !!python/tuple [" + ("%s, " % _w(p)) * n + "z]" + p["nl"] + ": v" + p["nl"], "full"),
+    ("long-block-collection-as-key", 1000, lambda n, p: "?" + "".join("%s- %s" % (" " if i == 0 else p["nl"] + "  ", _w(p)) for i in range(n)) + p["nl"] + ": v" + p["nl"], "compose"),
+    ("long-mapping-as-key", 700, lambda n, p: "? {" + "".join("k%d: %s, " % (i, _w(p)) for i in range(n)) + "z: z}" + p["nl"] + ": v" + p["nl"], "compose"),
+    ("serialize-long-collection-as-key", 700, lambda n, p: "? [" + ("%s, " % _w(p)) * n + "z]" + p["nl"] + ": v" + p["nl"], "compose+serialize"),
+    ("merge-distinct-inline-sources", 500, lambda n, p: "".join("m%d: {<<: {x: %d}, z: 1}%s" % (i, i, p["nl"]) for i in range(n))),
+    ("merge-distinct-anchored-sources", 400, lambda n, p: "".join("- &a%d {x: %d}%s- {<<: *a%d, y: 2}%s" % (i, i, p["nl"], i, p["nl"]) for i in range(n))),
+    ("merge-one-long-list", 500, lambda n, p: "".join("d%d: &a%d {x%d: 1}%s" % (i, i, i, p["nl"]) for i in range(n)) + "m: {<<: [" + ", ".join("*a%d" % i for i in range(n)) + "]}" + p["nl"]),
+    ("many-tag-directives-documents", 400, lambda n, p: ("%%TAG !e! tag:yaml.org,2002:%s--- !e!str %s%s...%s" % (p["nl"], _w(p), p["nl"], p["nl"])) * n),
+    ("long-anchor-and-tag-names", 2000, lambda n, p: "- &" + "a" * n + " !!str v" + p["nl"] + "- *" + "a" * n + p["nl"] + "- !<tag:yaml.org,2002:str> " + "t" * n + p["nl"]),
     ("sets-and-omaps", 500, lambda n, p: "s: !!set {" + ", ".join("e%d" % i for i in range(n)) + "}" + p["nl"] + "o: !!omap [" + ", ".join("k%d: v" % i for i in range(n)) + "]" + p["nl"]),
 ]
 
@@ -108,6 +117,11 @@ DUMP = [
     ("long-keys", 300, lambda n, p: {("k%d " % i) * 40: i for i in range(n)}),
     ("breaks-mixed", 1000, lambda n, p: ("a\r\nb\x85c d\n") * n),
     ("list-of-dicts", 500, lambda n, p: [{"a": i, "b": p["word"]} for i in range(n)]),
+    ("long-tuple-as-first-key", 1000, lambda n, p: {tuple(range(n)): "v", "z": 1}),
+    ("many-tuple-keys", 500, lambda n, p: {(i, p["word"]): i for i in range(n)}),
+    ("deep-first-keys", 300, lambda n, p: {((tuple(range(n)), 1), 2): "v"}),
+    ("many-anchored-shared-lists", 400, lambda n, p: [x for i in range(n) for x in ([[i]] * 2)]),
+    ("dates-and-bytes", 700, lambda n, p: [__import__("datetime").date(2001, 1, 1 + i % 28) for i in range(n)] + [b"x" * 10] * n),
 ]
 
 
@@ -115,7 +129,9 @@ def eval_family(case):
     import yaml
     kind, idx, p, scale = case
     fams = LOAD if kind == "load" else DUMP
-    name, base, build = fams[idx % len(fams)]
+    fam = fams[idx % len(fams)]
+    name, base, build = fam[:3]
+    api = fam[3] if len(fam) > 3 else "safe"
     n = max(4, int(base * scale))
     cl = {"%s:%s" % (kind, name)}
     failures = []
@@ -124,7 +140,13 @@ def eval_family(case):
     for k in (1, 2, 4):
         x = build(n * k, p)
         try:
-            if kind == "load":
+            if kind == "load" and api == "compose":
+                c = calls_of(lambda: list(yaml.compose_all(x, Loader=yaml.SafeLoader)))
+            elif kind == "load" and api == "compose+serialize":
+                c = calls_of(lambda: yaml.serialize_all(list(yaml.compose_all(x, Loader=yaml.SafeLoader)), Dumper=yaml.SafeDumper))
+            elif kind == "load" and api == "full":
+                c = calls_of(lambda: list(yaml.load_all(x, Loader=yaml.FullLoader)))
+            elif kind == "load":
                 c = calls_of(lambda: list(yaml.load_all(x, Loader=yaml.SafeLoader)))
             else:
                 c = calls_of(lambda: yaml.dump(x, Dumper=yaml.SafeDumper, **opts))
